@@ -72,7 +72,7 @@ def cases(tier: str, seed: int) -> list[dict]:
     for at, rng_k in (('ticket', range(0, 5)), ('offset', range(0, 9))):
         for k in rng_k:
             add(kind='pair', size=8193, cuts=[{'at': at, 'K': k, 'mode': 'rst'}])
-    n_random = 110 if tier == 'quick' else 5000
+    n_random = 110 if tier == 'quick' else 8000
     for _ in range(n_random):
         size = rng.choice(SIZES[1:] + [rng.randint(2, 40000)])
         ncuts = rng.choice([1, 1, 2, 3])
@@ -81,7 +81,7 @@ def cases(tier: str, seed: int) -> list[dict]:
         add(kind='pair', size=size, cuts=cuts, randomize=True)
     # the local partial file changes between attempts (truncated by the user / another program) and
     # user pause + re-queue in mid-transfer: the resume offset must follow the file, not a counter
-    n_var = 70 if tier == 'quick' else 1500
+    n_var = 70 if tier == 'quick' else 2500
     for i in range(n_var):
         size = rng.choice([8193, 3 * 8192 + 5, 100000])
         k = rng.randint(1, size - 1)
@@ -91,10 +91,10 @@ def cases(tier: str, seed: int) -> list[dict]:
             add(kind='pair', size=size, cuts=[], pause=True)
     # the uploader's first file connection arrives late: its direct attempt hangs until the connect timeout and the
     # server relays the connect-to-peer request after a delay, around the downloader's 60 s wait for the connection
-    n_late = 24 if tier == 'quick' else 400
+    n_late = 24 if tier == 'quick' else 600
     for i in range(n_late):
         add(kind='pair', size=rng.choice([129, 8193, 20000]), cuts=[], late_file_conn=rng.choice([40.0, 49.0, 49.9, 50.1, 51.0, 55.0]))
-    n_dis = 70 if tier == 'quick' else 1500
+    n_dis = 70 if tier == 'quick' else 3000
     for i in range(n_dis):
         add(kind='dishonest', i=i)
     if tier == 'thorough':
